@@ -33,6 +33,9 @@ def may_raise(model: Model) -> MayRaise:
 def writer_tag_sites(model: Model, folder: Folder):
     """Every tag expression handed to an ASN1Writer method or used as a default in asn1.py."""
     sites = []
+    from ..anchors import asn1 as asn1_anchors, reachable
+    an = asn1_anchors(model)
+    writer_side = {f.qualname for h in an.writer_helper.values() for f in reachable(model, h)} | {fi.qualname for fi in model.cls("sansldap.asn1.ASN1Writer").methods.values()}
     for fq, fi in list(model.functions.items()):
         if isinstance(fi.node, ast.Lambda):
             continue
@@ -47,7 +50,7 @@ def writer_tag_sites(model: Model, folder: Folder):
                         tag = k.value
                 if tag is not None:
                     sites.append((fi, n, tag))
-            elif isinstance(n, ast.Assign) and fi.module == "sansldap.asn1" and (fi.name.startswith("_pack") or fi.name.startswith("push") or fi.name.startswith("write")) \
+            elif isinstance(n, ast.Assign) and fi.module == "sansldap.asn1" and fi.qualname in writer_side \
                     and any(isinstance(t, ast.Name) and t.id == "tag" for t in n.targets):
                 sites.append((fi, n, n.value))
     return sites
@@ -209,6 +212,8 @@ def check(model: Model, run: Run) -> None:
     # ---- (2) what the wrappers add: exceptions while the notification is packed ---
     tags_ok = None
     getdata_ok = None
+    from ..anchors import asn1 as asn1_anchors
+    packer_q = asn1_anchors(model).packer.qualname
     for q in (CLIENT, SERVER):
         wfi = model.find_method(q, "receive")
         if wfi is base_fi:
@@ -228,11 +233,11 @@ def check(model: Model, run: Run) -> None:
                 if getdata_ok is None:
                     getdata_ok = check_get_data(model, run)
                 ok, why = getdata_ok, "every get_data() receiver is a local root ASN1Writer()"
-            elif e.func.endswith("asn1._pack_asn1") and e.exc == "ValueError" and ("tag_class" in e.text or "identifier_octets" in e.text):
+            elif e.func == packer_q and e.exc == "ValueError" and not ("len(" in e.text and e.kind == "implicit"):
                 if tags_ok is None:
                     tags_ok = check_tags(model, run, folder)
                 ok, why = tags_ok, "every tag handed to the writer folds to a constant with a TagClass member and a number >= 0"
-            elif e.func.endswith("asn1._pack_asn1") and e.exc == "ValueError" and "len(" in e.text:
+            elif e.func == packer_q and e.exc == "ValueError" and "len(" in e.text:
                 ok, why = check_len_octets(model, e)
             elif e.exc == "UnicodeEncodeError":
                 ok, why = encode_discharge(model, ex, q, e, responses, folder, mr, run)
